@@ -12,6 +12,8 @@ import (
 	"strings"
 
 	api "k8s.io/api/core/v1"
+	discoveryv1 "k8s.io/api/discovery/v1"
+	"k8s.io/apimachinery/pkg/util/intstr"
 	"sigs.k8s.io/controller-runtime/pkg/client"
 
 	"github.com/jcmoraisjr/haproxy-ingress/pkg/converters/gateway"
@@ -334,6 +336,81 @@ func genRouteSort(rng *rand.Rand, tcp bool) (string, interface{}, bool) {
 		map[string]interface{}{"tcp": tcp, "routes": jin, "observed": obs}, true
 }
 
+// ---------------------------------------------------------------- CSlices
+
+func genSlices(rng *rand.Rand, i int) (string, interface{}, bool, error) {
+	svc := world.Service("ns1", "echo", world.SvcPort{Name: "http", Port: 80, TargetPort: intstr.FromInt(8080)},
+		world.SvcPort{Name: "admin", Port: 9000, TargetPort: intstr.FromInt(9100)})
+	ing := world.Ingress("ns1", "ing1", 10, world.IngRule{Host: "a.example", Paths: []world.IngPath{{Path: "/", Type: "Prefix", Service: "echo", PortNum: 80}}})
+	objs := []client.Object{svc, ing}
+	drain := rng.Intn(2) == 0
+	if drain {
+		cm := &api.ConfigMap{}
+		cm.Namespace, cm.Name = "ingress-controller", "haproxy-ingress"
+		cm.Data = map[string]string{"drain-support": "true"}
+		objs = append(objs, cm)
+	}
+	slices := c06.GenSlices(rng, objs)
+	objs = c06.Stamp(append(objs, slices...))
+	r := c06.Run{Dir: filepath.Join(workdir, "corr"), Opts: c06.Opts{WatchWithoutClass: true, EndpointSlices: true}, Objs: objs,
+		Order: rng.Perm(len(objs)), ShuffleLists: i%2 == 1, Seed: int64(i + 1)}
+	res, err := c06.Exec(r, universe, true)
+	if err != nil {
+		return "", nil, false, err
+	}
+	defer res.Pipeline.Close()
+	var cs []string
+	var js []interface{}
+	addrs := map[string]int{}
+	for _, o := range slices {
+		sl := o.(*discoveryv1.EndpointSlice)
+		var ports, eps []string
+		for _, p := range sl.Ports {
+			ports = append(ports, hx.Tuple(hx.Str(*p.Name), hx.Z(int64(*p.Port))))
+		}
+		var jeps []string
+		for _, e := range sl.Endpoints {
+			rd := "None"
+			if e.Conditions.Ready != nil {
+				rd = "(Some " + hx.Bool(*e.Conditions.Ready) + ")"
+			}
+			eps = append(eps, hx.Tuple(hx.Str(e.Addresses[0]), rd))
+			jeps = append(jeps, e.Addresses[0]+" "+rd)
+			addrs[e.Addresses[0]]++
+		}
+		cs = append(cs, hx.Tuple(hx.List(ports), hx.List(eps)))
+		js = append(js, map[string]interface{}{"name": sl.Name, "ports": len(sl.Ports), "endpoints": jeps})
+	}
+	obs := map[string]string{}
+	for _, b := range res.Pipeline.Config().Backends().Items() {
+		if b.Namespace != "ns1" || b.Name != "echo" {
+			continue
+		}
+		for _, ep := range b.Endpoints {
+			if ep.IsEmpty() || !ep.Enabled {
+				continue
+			}
+			obs[fmt.Sprintf("%s:%d", ep.IP, ep.Port)] = "(Some " + hx.Bool(ep.Weight != 0) + ")"
+		}
+	}
+	var queries []string
+	dup := false
+	for _, a := range hx.SortedKeys(addrs) {
+		if addrs[a] > 1 {
+			dup = true
+		}
+		for _, port := range []int{8080, 9100} {
+			o, ok := obs[fmt.Sprintf("%s:%d", a, port)]
+			if !ok {
+				o = "None"
+			}
+			queries = append(queries, hx.Tuple(hx.Str(a), hx.Z(int64(port)), o))
+		}
+	}
+	return fmt.Sprintf("CSlices @ID@ %s %s %s %s", hx.Bool(drain), hx.Str("http"), hx.List(cs), hx.List(queries)),
+		map[string]interface{}{"drain": drain, "slices": js, "servers": obs}, dup, nil
+}
+
 func correspondence2(o *hx.Opts, rng *rand.Rand, res *hx.Result, add func(kind, term string, js interface{}, nontrivial bool)) {
 	for i, n := 0, o.Count(160, 3000); i < n; i++ {
 		t, js, nt := genRouteSort(rng, i%2 == 1)
@@ -360,6 +437,15 @@ func correspondence2(o *hx.Opts, rng *rand.Rand, res *hx.Result, add func(kind, 
 			continue
 		}
 		add("alias", t, js, nt)
+	}
+	for i, n := 0, o.Count(60, 800); i < n; i++ {
+		t, js, nt, err := genSlices(rng, i)
+		if err != nil {
+			res.Count("corr_slices_error")
+			res.Fail(hx.Failure{Key: "C06/update-error", What: "a pipeline of the correspondence failed: " + err.Error(), Input: js})
+			continue
+		}
+		add("slices", t, js, nt)
 	}
 	for i, n := 0, o.Count(40, 600); i < n; i++ {
 		t, js, nt, err := genTcp(rng, i)
